@@ -152,12 +152,31 @@ def main(tier):
     if tier == "quick":
         rnd.shuffle(graphs)
         graphs = graphs[:300]
-    for g in graphs:
+    spelled = []
+    for gi, g in enumerate(graphs):
         files = {}
         for f, targets in g["graph"].items():
             body = "".join('.import * as m%d from "%s.asm"\n' % (i, t) for i, t in enumerate(targets)) + "l%s: nop\n" % f
             files[f + ".asm"] = body
         add(files, "import-graph")
+        if gi % 3 == 0:
+            # the same graph with the imported files in a directory of their own and every edge spelled in one of the ways a
+            # path can name the same file (`x.asm`, `./x.asm`, `../lib/x.asm`, `lib/../lib/x.asm`): a file is one node of the
+            # graph however it is spelled
+            files = {}
+            for f, targets in g["graph"].items():
+                here = "" if f == "main" else "lib/"
+                body = ""
+                for i, t in enumerate(targets):
+                    if t == "main":
+                        sp = rnd.choice(["main.asm", "./main.asm", "lib/../main.asm"]) if f == "main" else rnd.choice(["../main.asm", "../lib/../main.asm"])
+                    elif f == "main":
+                        sp = rnd.choice(["lib/%s.asm", "./lib/%s.asm", "lib/../lib/%s.asm"]) % t
+                    else:
+                        sp = rnd.choice(["%s.asm", "./%s.asm", "../lib/%s.asm"]) % t
+                    body += '.import * as m%d from "%s"\n' % (i, sp)
+                files[here + f + ".asm"] = body + "l%s: nop\n" % f
+            spelled.append(files)       # (only a real directory tree resolves `..`: these go through the `mos build` process below)
     # mutated corpus (shared with C05) and generated programs
     spec5 = importlib.util.spec_from_file_location("c05check", os.path.join(os.path.dirname(os.path.abspath(__file__)), "..", "C05", "check.py"))
     c05 = importlib.util.module_from_spec(spec5)
@@ -239,6 +258,23 @@ def main(tier):
         meta[cid] = {"hazard": "raw-bytes", "files": {"main.asm": repr(data)[:200]}}
         has_out = rc == 0 or "error" in outp
         recs.append({"id": cid, "end": end if (end != "done" or has_out) else "panic", "stage": "process", "site": "process exit %d" % rc, "hazard": "raw-bytes", "ideal": "", "files": ["main.asm"], "events": []})
+        pres.append((cid, rc, outp[-300:]))
+    for k, files in enumerate(spelled):
+        d = os.path.join(root, "g%d" % k)
+        for fn, txt in files.items():
+            os.makedirs(os.path.dirname(os.path.join(d, fn)), exist_ok=True)
+            open(os.path.join(d, fn), "w").write(txt)
+        open(os.path.join(d, "mos.toml"), "w").write('[build]\nentry = "main.asm"\n')
+        try:
+            p = subprocess.run([mos, "--no-color", "-e", "Short", "build"], cwd=d, capture_output=True, timeout=30)
+            rc, hung, outp = p.returncode, False, p.stdout.decode("utf-8", "replace")
+        except subprocess.TimeoutExpired:
+            rc, hung, outp = -9, True, ""
+        end = "hang" if hung else ("done" if rc in (0, 1) else ("panic" if rc == 101 else "abort"))
+        cid = len(cases) + 1 + nproc + k
+        meta[cid] = {"hazard": "import-graph", "files": files}
+        has_out = rc == 0 or "error" in outp
+        recs.append({"id": cid, "end": end if (end != "done" or has_out) else "panic", "stage": "process", "site": "process exit %d" % rc, "hazard": "import-graph", "ideal": "", "files": sorted(files), "events": []})
         pres.append((cid, rc, outp[-300:]))
     verdicts, st = V.judge(os.path.join(SPEC, "LifecycleTrace.tla"), recs, cfg=os.path.join(SPEC, "LifecycleTrace.cfg"), tag="C06-judge", batch=4000, timeout=3000)
     rep.add_stats(st)
